@@ -65,6 +65,11 @@ def make_alphabet(B, cfg, seed):
                     if which == 4 and hkl != (1, 1, 1):
                         continue
                     ops.append(dict(kind="op", name="crystal_transient", sig="iiiiiid", args=[mode, which, ci, hkl[0], hkl[1], hkl[2], 17.0]))
+    # crystal files: a valid one and one per way of being rejected (Crystal_ReadFile parses numbers and may touch the numeric locale)
+    S_, U_, L_, A_, E_ = "#S 1 Nm", "#UCELL 5.4 5.4 5.4 90 90 90", "#L AtomicNumber Fraction X Y Z", "14 1.0 0.0 0.5 0.5", "#EOF"
+    for txt in ("\n".join([S_, U_, L_, A_, A_, E_]) + "\n", "\n".join([S_, U_, L_, A_, "14 1.0 zero", E_]) + "\n", "\n".join([S_, "#UCELL 5.4 5.4", L_, A_, E_]) + "\n",
+                "\n".join([S_, L_, A_, E_]) + "\n", "\n".join([S_, U_, L_, A_, S_, U_, L_, A_, E_]) + "\n", "", "\n".join([S_, U_, L_, A_])):
+        ops.append(dict(kind="op", name="readfile_content", sig="sii", args=[txt, 1, 0]))
     ops.append(dict(kind="op", name="XRayInit", sig="i", args=[0]))
     for k, v in ((0, 1), (0, 0), (1, 3), (2, 1), (2, 0), (3, 0), (4, 0)):
         ops.append(dict(kind="op", name="deprecated", sig="ii", args=[k, v]))
@@ -133,6 +138,97 @@ def _pairs_worker(cfg, lc, ops, R, rows, core):
     return cnt, vs
 
 
+def _codes(col):
+    """integer codes of a column (strings / None / bytes -> first-occurrence index) for sorting"""
+    if isinstance(col, np.ndarray):
+        return col
+    idx = {}
+    return np.array([idx.setdefault(v, len(idx)) for v in col])
+
+
+def order_invariance(ctx, B, cfg, cap):
+    """A batch of calls executed by ONE process in sequence is a history.  For a function of its arguments alone the result of every tuple is the same in
+    whatever order the batch is executed: each plan (the C03 argument product of one entry point, strided to <= cap tuples) is executed in its natural
+    order, in reverse, and once per argument with that argument varying fastest (so that consecutive calls share all the other arguments - the collision
+    a memo keyed on part of the arguments, or a cache left behind by a failing call, needs).  Results are compared bit for bit, tuple by tuple."""
+    X = xrl.Xrl("plain", cfg, build=B, nproc=16)
+    nseq = ncalls = 0
+    for p in c03.build_plans(B, cfg, 0, ctx.seed):
+        if ctx.expired():
+            break
+        if p.n < 2:
+            continue
+        if p.n > cap:
+            step = p.n // cap + 1
+            p = c03.Plan(p.name, p.kind, p.sig, [c[::step] for c in p.cols], p.op)
+        base = c03.run_plan(X, p, 0)
+        orders = [("reversed", np.arange(p.n)[::-1])]
+        codes = [_codes(c) for c in p.cols]
+        for k in range(len(codes)):
+            if len(np.unique(codes[k])) < 2:
+                continue
+            keys = [codes[k]] + [codes[q] for q in range(len(codes) - 1, -1, -1) if q != k]
+            orders.append(("argument %d fastest" % k, np.lexsort(keys)))
+        for what, perm in orders:
+            q = c03.Plan(p.name, p.kind, p.sig, [(c[perm] if isinstance(c, np.ndarray) else [c[i] for i in perm]) for c in p.cols], p.op)
+            r = c03.run_plan(X, q, 0)
+            nseq += 1; ncalls += p.n
+            b = base[perm]
+            with np.errstate(all="ignore"):
+                same = (r["v0"].view(np.uint64) == b["v0"].view(np.uint64)) & (r["v1"].view(np.uint64) == b["v1"].view(np.uint64)) & (r["code"] == b["code"]) & \
+                       (r["msghash"] == b["msghash"]) & ((r["flags"] & KEEP) == (b["flags"] & KEEP))
+            for j in np.nonzero(~same)[0][:3]:
+                a = c03.argtuple(q, int(j)); prev = c03.argtuple(q, int(j) - 1) if j > 0 else None
+                ctx.violation("%s|order-dependent|%s" % (cfg, p.name), "%s%r returns (%r, %r, code %d) when the batch runs in natural order but (%r, %r, code %d) in the order '%s' (previous call: %r)" % (
+                    p.name, tuple(a), float(b["v0"][j]), float(b["v1"][j]), int(b["code"][j]), float(r["v0"][j]), float(r["v1"][j]), int(r["code"][j]), what, prev),
+                    dict(cfg=cfg, ops=[dict(kind=p.kind, name=p.name if p.kind == "fn" else p.op, sig=p.sig, args=c03.argtuple(q, int(i))) for i in range(max(0, int(j) - 3), int(j) + 1)]))
+    X.close()
+    ctx.add(evaluations=ncalls)
+    ctx.notes.setdefault("order_invariance", {})[cfg] = dict(sequences=nseq, calls=ncalls)
+    return ncalls
+
+
+CF_LINES = ["#S 1 Nm", "#S 2 Nn", "#UCELL 5.4 5.4 5.4 90 90 90", "#UCELL 5.4 5.4", "#L AtomicNumber Fraction X Y Z", "14 1.0 0.0 0.5 0.5", "14 1.0 zero", "#EOF"]
+
+
+def _scan_worker(cfg, lc, files):
+    B = build.Build(verbose=False)
+    P = Proc(B, cfg, lc)
+    k0 = P.key(table=False); vs = []; cnt = 0
+    for txt in files:
+        P.X.op("readfile_content", "sii", [txt], [1], [0]); cnt += 1
+        k = P.key(table=False)
+        if k[2:4] != k0[2:4]:
+            vs.append(("%s|modifies-state|Crystal_ReadFile|%s" % (cfg, "+".join(w for w, a, b in zip(("locale", "cwd"), k0[2:4], k[2:4]) if a != b)),
+                       "Crystal_ReadFile of a file with the lines %r changes the process %s: %r -> %r" % (txt.split("\n"), "locale / cwd", k0[2:4], k[2:4]),
+                       dict(cfg=cfg, locale=lc, ops=[dict(kind="op", name="readfile_content", sig="sii", args=[txt, 1, 0])])))
+            P.close(); P = Proc(B, cfg, lc); k0 = P.key(table=False)
+            if len(vs) >= 20:
+                break
+    P.close()
+    return cnt, vs
+
+
+def state_scan(ctx, B, cfg, lc, quick):
+    """every crystal file made of up to 5 (thorough: 6) lines of the line alphabet is read once in a process running under the comma-decimal locale;
+    locale and cwd are compared before and after every single call (a failure path that forgets to restore what it changed needs the right malformed file)"""
+    import multiprocessing as mp
+    files = []
+    for n in range(0, (5 if quick else 6) + 1):
+        for seq in itertools.product(range(len(CF_LINES)), repeat=n):
+            files.append("\n".join(CF_LINES[i] for i in seq) + ("\n" if n else ""))
+    with mp.get_context("fork").Pool(16) as pool:
+        res = pool.starmap(_scan_worker, [(cfg, lc, files[t::16]) for t in range(16)])
+    tot = 0
+    for cnt, vs in res:
+        tot += cnt
+        for k, w, rp in vs:
+            ctx.violation(k, w, rp)
+    ctx.add(evaluations=tot)
+    ctx.notes.setdefault("state_scan_crystal_files", {})[cfg] = tot
+    return tot
+
+
 def run(ctx, B):
     quick = ctx.tier == "quick"
     loc = B.locale_dir()
@@ -167,10 +263,17 @@ def run(ctx, B):
             for th in ths: th.join()
             ref[lc] = out
             ctx.add(evaluations=n)
-        base_key = ref[None][0][1]
+        bfs_lc = "xx_XX" if loc else None          # the history exploration runs under the comma-decimal locale: a call that leaves the numeric locale at "C" is visible only there
+        base_key = ref[bfs_lc][0][1]
         if loc:
             for i in range(n):
                 a, b = ref[None][i][0], ref["xx_XX"][i][0]
+                if ops[i]["name"] == "readfile_content":
+                    # Crystal_ReadFile parses the file with the process locale (a crystal file is unreadable under a comma-decimal locale): it is not part
+                    # of the read-only query API the property speaks about; recorded as an observation, not flagged
+                    if a[:6] != b[:6]:
+                        ctx.notes["observation_Crystal_ReadFile_depends_on_numeric_locale"] = True
+                    continue
                 if a[:6] != b[:6]:
                     ctx.violation("%s|locale-dependent|%s" % (cfg, ops[i]["name"]), "%s gives a different result under a comma-decimal process locale: %r vs %r" % (describe(ops[i]), a[:6], b[:6]),
                                   dict(cfg=cfg, ops=[ops[i]]))
@@ -183,16 +286,16 @@ def run(ctx, B):
             hist = frontier.pop(0)
             i = 0
             while i < n:
-                P = Proc(B, cfg)
+                P = Proc(B, cfg, bfs_lc)
                 for h in hist:
                     P.run(ops[h])
                 cur = P.key()
                 P.X.op("err_hold", "i", [i % 3]); e0 = P.X.op("err_digest", "i", [0])[0][0]
                 while i < n:
                     o = P.run(ops[i]); trans += 1
-                    if o[:6] != ref[None][i][0][:6]:
+                    if o[:6] != ref[bfs_lc][i][0][:6]:
                         ctx.violation("%s|history-dependent|%s" % (cfg, ops[i]["name"]), "after history %r, %s returns %r but %r in a fresh process" % (
-                            [describe(ops[h]) for h in hist][-3:], describe(ops[i]), o[:6], ref[None][i][0][:6]), dict(cfg=cfg, ops=[ops[h] for h in hist] + [ops[i]]))
+                            [describe(ops[h]) for h in hist][-3:], describe(ops[i]), o[:6], ref[bfs_lc][i][0][:6]), dict(cfg=cfg, ops=[ops[h] for h in hist] + [ops[i]]))
                     k = P.key()
                     i += 1
                     if k != cur:
@@ -244,6 +347,8 @@ def run(ctx, B):
                               dict(cfg=cfg, ops=[ops[i]]))
         ctx.add(evaluations=n); total_trans += n
         P.close()
+        total_trans += order_invariance(ctx, B, cfg, 20000 if quick else 60000)
+        total_trans += state_scan(ctx, B, cfg, "xx_XX" if loc else None, quick)
         if cfg == "A":
             ctx.sample(dict(op=describe(ops[3]), fresh_result=[x if not isinstance(x, bytes) else x.hex() for x in ref[None][3][0][:5]], state_key=list(base_key)))
             ctx.sample(dict(pair=[describe(ops[1]), describe(ops[n // 2])]))
@@ -255,7 +360,9 @@ def run(ctx, B):
     ctx.cov["rule"] = ("op alphabet = first/middle/last succeeding and first/last failing tuple of every entry point of the C03 table + XRayInit + deprecated setters; BFS from the pristine "
                        "state where a state is a whole-state key (digest of the library's writable sections and of the table object, locale, cwd, live library blocks): on a pure "
                        "library the reachable set is one state and closes after |alphabet| transitions, i.e. for histories of any length; additionally all ordered pairs (%s) and all "
-                       "triples over a core are executed in long-running processes and every result is compared bit for bit with a freshly exec'd process; C and comma locale" % (
+                       "triples over a core are executed in long-running processes and every result is compared bit for bit with a freshly exec'd process; C and comma locale; "
+                       "order invariance: the C03 argument product of every entry point (strided) executed as one sequence in natural order, reversed and once per argument "
+                       "with that argument varying fastest, results compared tuple by tuple" % (
                            "every 3rd first op" if quick else "complete"))
     ctx.assumptions += ["argument values outside the alphabet are not covered", "state kept inside libc other than locale / cwd / stdio is not part of the key",
                         "explicit insertion into the built-in crystal collection is the documented exception and is checked to change nothing else"]
